@@ -14,6 +14,7 @@ mod mem;
 mod model;
 mod ops;
 mod oracle;
+mod pool;
 mod rng;
 mod sched;
 mod schedrun;
